@@ -24,3 +24,11 @@ Theorem C05_iteration_yields_all : forall conts s k yf rest,
   cs_idle s' = true /\ cs_inbox s' = rest.
 Proof. exact iteration_yields_all. Qed.
 Print Assumptions C05_iteration_yields_all.
+
+(* tie: the functions this property's model describes by hand (not by translation) still have the pinned text; an
+   edit to one of them breaks this obligation and sends the check searching for a failing input *)
+From VL Require Import ShapeFacts.
+From VLG Require Import ShapeGen.
+Theorem C05_modelled_code_is_the_pinned_text : shapes_for_C05 = true.
+Proof. exact shapes_C05_ok. Qed.
+Print Assumptions C05_modelled_code_is_the_pinned_text.
